@@ -12,13 +12,14 @@ reg("C25",
          "of the reference to reject | accept) x observed outcome",
     bound="PDU type 0..15 x header flag bits {0,0x10,0x20} x length field {0,11,12,13,33,34,35,37} x reported size {0,2,14,35,36,min(36,len+2)} x AdvA {own, bit 0 off, bit 47 off} x "
           "RxAdd x TxAdd x InitA {listed, unlisted, directed peer, peer one bit off} (110592 PDUs per configuration; LLData always valid); configurations: own address {random static, "
-          "public} x connection filter {off, on, on + peer listed} x directed target {public, random, withdrawn while pending, never set}; quick: undirected (software white list), "
+          "public} x connection filter {off, on, on + peer listed} x directed target {public, random, withdrawn while pending, never set}; 4-type advertiser additionally: every ordered pair (type on air, type selected by change_advertising<>() before the answer arrives) x own address x connection filter {off,on}; quick: undirected (software white list), "
           "directed, 4-type advertiser; nRF52 binding: undirected, scannable x own address x scan filter x connection filter x resolving_address_invalid() {false,true} (13824 PDUs each); "
           "thorough: + radio-kept white list, scannable, non-connectable, no white list, all under ASan; nRF52: + non-connectable, directed",
     units=[dict(src="harness/C25_connect_ll.cpp", link_ll=True,
                 variants=[dict(name="undirected_swlist", defs=["C25_CFG=1"]),
                           dict(name="directed", defs=["C25_CFG=3"]),
-                          dict(name="multitype", defs=["C25_CFG=6"])]),
+                          dict(name="multitype", defs=["C25_CFG=6"], args=["--part", "base"]),
+                          dict(name="multitype_switch", defs=["C25_CFG=6"], args=["--part", "switch"])]),
            # thorough: every configuration once more under AddressSanitizer (received PDU in an exact size heap block)
            dict(src="harness/C25_connect_ll.cpp", link_ll=True, asan=True, thorough_only=True,
                 variants=[dict(name="asan_undirected_swlist", defs=["C25_CFG=1"]),
@@ -26,7 +27,8 @@ reg("C25",
                           dict(name="asan_directed", defs=["C25_CFG=3"]),
                           dict(name="asan_scannable", defs=["C25_CFG=4"]),
                           dict(name="asan_nonconn", defs=["C25_CFG=5"]),
-                          dict(name="asan_multitype", defs=["C25_CFG=6"]),
+                          dict(name="asan_multitype", defs=["C25_CFG=6"], args=["--part", "base"]),
+                          dict(name="asan_multitype_switch", defs=["C25_CFG=6"], args=["--part", "switch"]),
                           dict(name="asan_nolist", defs=["C25_CFG=7"])]),
            dict(src="harness/C25_scan_nrf52.cpp", link_ll=True,
                 flags=["-I" + _verif + "/harness/C25_stub",
@@ -40,6 +42,8 @@ reg("C25",
     assumptions=[
         "the property is read in both directions (answered / connected <=> reference predicate); the 'valid request is served' direction is pinned by existing tests "
         "and has its own signatures (connect:valid-request-ignored, scan:valid-request-not-answered)",
+        "the advertising type that decides about a request is the one of the PDU that was transmitted (read from the PDU type handed to the radio); "
+        "change_advertising<>() is documented to take effect only with the next advertising PDU",
         "timing parameters, channel map and hop of the CONNECT_IND are always valid (their validation is C20/C22)",
         "header bits 4/5 (RFU, ChSel) must not influence the decision; length octets with bits 6/7 set are not enumerated (RFU in 4.x, part of the length in 5.x)",
         "link_layer<> never sees scan requests (no caller of advertiser::is_valid_scan_request exists): the scan half is checked only for the nRF52 binding "
